@@ -44,6 +44,9 @@ def gen_program(rnd, pid, cls='A', nrt_only=False, feats=('send', 'tempo', 'spaw
         lat, kind = rnd.choice(LATS)
         if rnd.random() < 0.2:
             nl, nkind = rnd.choice(LATS)
+            if nkind != 1 and nl >= 0 and rnd.random() < 0.5:
+                # three levels: a bundle inside the nested bundle, after it (3) or before it (4: must be refused)
+                return I('S', a=lat, b=kind, s=tag(), nk=rnd.choice([3, 3, 4]), na=nl)
             return I('S', a=lat, b=kind, s=tag(), nk=2 if nkind == 1 else 1, na=nl)
         if rnd.random() < 0.15:
             return I('M', s=tag())
